@@ -1,0 +1,43 @@
+package misc
+
+import (
+	"fmt"
+	"strings"
+)
+
+// RegoString renders s as a Rego string literal, escaping every character that would end the
+// literal or be read as an escape sequence. Text taken from a profile must be pasted into generated
+// code through this function.
+func RegoString(s string) string {
+	var b strings.Builder
+	b.WriteByte('"')
+	for _, r := range s {
+		switch {
+		case r == '"':
+			b.WriteString(`\"`)
+		case r == '\\':
+			b.WriteString(`\\`)
+		case r == '\n':
+			b.WriteString(`\n`)
+		case r == '\r':
+			b.WriteString(`\r`)
+		case r == '\t':
+			b.WriteString(`\t`)
+		case r < 0x20 || r == 0x7f || r == 0x2028 || r == 0x2029:
+			fmt.Fprintf(&b, `\u%04x`, r)
+		default:
+			b.WriteRune(r)
+		}
+	}
+	b.WriteByte('"')
+	return b.String()
+}
+
+// RegoStringList renders the elements as the body of a Rego set/array literal: "a","b","c"
+func RegoStringList(values []string) string {
+	quoted := make([]string, len(values))
+	for i, v := range values {
+		quoted[i] = RegoString(v)
+	}
+	return strings.Join(quoted, ",")
+}
